@@ -124,7 +124,13 @@ func dynamicReplace(in, out cty.Type) cty.Type {
 
 		return out
 	case out.IsTupleType():
-		// Tuples are only compatible with other tuples
+		// Tuples are only compatible with other tuples of the same length.
+		// Anything else can still arrive here, below a position whose own
+		// conversion is not needed (an optional attribute the source does
+		// not provide, for example), and then there is nothing to replace.
+		if !in.IsTupleType() || in.Length() != out.Length() {
+			return out
+		}
 		var types []cty.Type
 		for ix := 0; ix < len(out.TupleElementTypes()); ix++ {
 			types = append(types, dynamicReplace(in.TupleElementType(ix), out.TupleElementType(ix)))
